@@ -17,7 +17,7 @@ the obligation breaks.
   raised per function; operator/method/constant spellings; operator priorities; keywords; datetime
   layout strings and their order in `ParseTime`);
 * `cancel_site_class`: the context poll raises a plain `ErrExecution` (never suppressible);
-* C19 / C05 effect discipline: `no_goroutines`, `no_unsafe_or_sync`, `no_package_var_writes`, `no_package_var_uses`,
+* C19 / C05 effect discipline: `no_goroutines`, `no_unsafe_or_sync`, `no_package_var_writes`, `no_package_var_uses`, `in_place_calls_are_local`,
   `exec_writes_are_per_call` (package exec only assigns fields of the per-call `Executor`, the
   per-call `valueList`, and a local slice), `ast_writes_are_construction` (package ast only assigns
   node fields in constructors / `setNext` / `NewAny`, and a local byte slice),
@@ -45,6 +45,11 @@ theorem no_package_var_writes : Gen.packageVarWrites = [] := by decide
 /-- no function calls a method on, or takes the address of, a package-level variable (a shared
     scratch buffer, cache or pool would show here) -/
 theorem no_package_var_uses : Gen.packageVarUses = [] := by decide
+/-- the only call that rewrites a slice in place (`slices.Sort/Delete/Compact/Reverse…`, `sort.*`,
+    `clear`, `copy`) sorts a local key list; in particular nothing rewrites an option list, a result
+    or an input handed in by the caller -/
+theorem in_place_calls_are_local :
+    Gen.inPlaceCalls = [("path/exec", "Executor.executeKeyValueMethod", "slices.Sort(keys)")] := by decide
 
 def hasPrefix (p s : String) : Bool := s.toList.take p.length == p.toList
 
